@@ -664,7 +664,7 @@ class Gen:
             return False
         A = self.arr(a)
         sh = list(A.shape)
-        kind = r.choice(["bin", "axis", "getitem", "setitem", "aug", "reshape", "matmul", "setitem_view"])
+        kind = r.choice(["bin", "axis", "getitem", "setitem", "aug", "reshape", "matmul", "setitem_view", "setshape", "setshape"])
         h = self.nh + 1
         if kind == "bin":
             bad = [d + 1 if d > 1 else 3 for d in sh]
@@ -689,6 +689,14 @@ class Gen:
                 bad = [d + 2 for d in tsh]
                 s = {"k": "setitem", "t": t, "ix": {"t": "basic", "items": [{"t": "ell"}]},
                      "val": {"arr": {"sh": bad, "v": [R(1)] * int(np.prod(bad))}}}
+        elif kind == "setshape":
+            # a shape NumPy cannot give the array without copying (e.g. flattening a transposed view), or of the wrong size
+            c = [q for q in self.live() if self.arr(q).ndim >= 2 and self.arr(q).size > 1
+                 and not any(z != q and self.np.H[z] is self.arr(q) for z in self.np.H)]
+            if not c:
+                return False
+            t = r.choice(c)
+            s = {"k": "setshape", "t": t, "sh": r.choice([[self.arr(t).size], [-1], [self.arr(t).size + 1]])}
         elif kind == "aug":
             bad = [d + 2 for d in sh]
             s = {"k": "aug", "t": a, "f": "add", "val": {"arr": {"sh": bad, "v": [R(1)] * int(np.prod(bad))}}}
@@ -859,14 +867,14 @@ PROFILES = {
                 w_func=0.75, w_view=0.25, w_inplace=0.0, max_leaves=3, max_steps=8, p_const_leaf=0.2),
     "c04": dict(functional=["bin", "un", "red"], w_func=0.25, w_view=0.4, w_inplace=0.35, max_leaves=2,
                 max_steps=8, backward=False, p_const_leaf=0.2, p_kw_const_view=0.08, p_kw_const_out=0.15,
-                inplace=["setitem", "setitem", "aug", "uout", "setshape"]),
+                inplace=["setitem", "setitem", "aug", "uout", "setshape"], w_misc=0.08, misc=["fail"]),
     "c05": dict(functional=["bin", "bin", "un", "red", "matmul", "gathercopy"], w_func=0.35, w_view=0.3, w_inplace=0.35,
                 max_leaves=2, max_steps=8, p_const_leaf=0.15),
     "c06": dict(functional=["bin", "un", "red"], w_func=0.4, w_view=0.6, w_inplace=0.0, max_leaves=2, max_steps=7,
                 p_const_leaf=0.0),
     "c09": dict(functional=["bin", "bin", "un", "red", "matmul"], w_func=0.5, w_view=0.25, w_inplace=0.25, max_leaves=2,
                 max_steps=5, max_epochs=2, max_terminals=3, between_steps=3, p_const_leaf=0.15, w_misc=0.1,
-                misc=["clear", "nullgrad"], p_clear_instead=0.2),
+                misc=["clear", "nullgrad"], p_clear_instead=0.2, inplace=["setitem", "setitem", "aug", "uout", "setshape"]),
     "c10": dict(functional=["bin", "bin", "un", "power", "red", "matmul", "where", "join", "gathercopy"], w_func=0.55,
                 w_view=0.25, w_inplace=0.2, max_leaves=3, max_steps=8, p_const_leaf=0.4, p_kw_const=0.3, p_int_leaf=0.2,
                 p_kw_const_out=0.3, p_kw_const_view=0.05),
